@@ -479,20 +479,29 @@ class Check:
 @contextlib.contextmanager
 def client_logging(i):
     """Process-level state that belongs to the CLIENT: how verbose it wants the library's logger to be.  Cycles through
-    'as found', silenced (CRITICAL) and DEBUG (to no handler of ours); what the library returns, refuses or writes must
+    'as found', silenced (CRITICAL), DEBUG (to no handler of ours) and a debug log kept through pydrex.io.logfile_enable; what the library returns, refuses or writes must
     not depend on it.  Restored on exit."""
     import logging
 
     log = logging.getLogger("pydrex")
     old = log.level
-    try:
-        if i % 3 == 1:
-            log.setLevel(logging.CRITICAL)
-        elif i % 3 == 2:
-            log.setLevel(logging.DEBUG)
-        yield
-    finally:
-        log.setLevel(old)
+    with contextlib.ExitStack() as stack:
+        try:
+            if i % 4 == 1:
+                log.setLevel(logging.CRITICAL)
+            elif i % 4 == 2:
+                log.setLevel(logging.DEBUG)
+            elif i % 4 == 3:
+                # the client keeps a debug log through the library's own documented interface (a handler that listens at
+                # DEBUG on the library's logger; the stream form is the one the library documents for tests)
+                import io as _io
+
+                import pydrex.io
+
+                stack.enter_context(pydrex.io.logfile_enable(_io.StringIO(), level=logging.DEBUG))
+            yield
+        finally:
+            log.setLevel(old)
 
 
 def quiet_pydrex():
